@@ -351,9 +351,21 @@ pub fn random_pn_event(rng: &mut Rng, channels: u8, nvalues: u8, polls: bool, ti
 
 pub fn run_c11(cfg: &Cfg, rep: &mut Report) {
     rep.rule("fixpoint exploration of (real scanner x history oracle): alphabet = controllers {98,99,100,101,38,6,96,97} x abstract values, non-contributing representatives, system messages, reset, on one channel and on two channels; plus seeded random histories over the full 16x128x128 alphabet (few-value and full-value mixes, 1-16 channels); distinct_nontrivial = explorer states + random histories in which at least one message was reported");
-    let values: Vec<u8> = if cfg.thorough && !cfg.as_c18 { vec![0, 1, 127] } else { vec![0, 1] };
-    let setups: Vec<Vec<u8>> = if cfg.as_c18 { vec![vec![2]] } else { vec![vec![0], vec![15], vec![3, 12]] };
-    for chans in setups {
+    let base: Vec<u8> = if cfg.thorough && !cfg.as_c18 { vec![0, 1, 127] } else { vec![0, 1] };
+    let mut setups: Vec<(Vec<u8>, Vec<u8>)> = if cfg.as_c18 {
+        vec![(vec![2], base.clone())]
+    } else {
+        vec![(vec![0], base.clone()), (vec![15], base.clone()), (vec![3, 12], vec![0, 1])]
+    };
+    if !cfg.as_c18 {
+        // rotating abstract values and channels (data independence is attacked, not assumed)
+        for (i, p) in crate::util::value_pairs(cfg, 0xC11, 4).iter().enumerate().skip(1) {
+            setups.push((vec![crate::util::rotating_channel(cfg, i)], vec![p[0], p[1]]));
+        }
+        let c2 = [crate::util::rotating_channel(cfg, 5), crate::util::rotating_channel(cfg, 6)];
+        setups.push((c2.to_vec(), vec![crate::util::value_pairs(cfg, 0xC11, 4).last().unwrap()[0], 127]));
+    }
+    for (chans, values) in setups {
         let alpha = pn_alphabet(&chans, &values, false, None);
         let (st, _) = explore(cfg, PnMon::new(), &alpha, 3_000_000, rep, false);
         rep.states += st.states;
@@ -364,10 +376,13 @@ pub fn run_c11(cfg: &Cfg, rep: &mut Report) {
         if !st.fixpoint {
             rep.inconclusive("C11 explorer did not reach a fixpoint within the state bound");
         }
-        rep.notes.insert(
-            format!("explorer_channels_{:?}", chans),
-            json!({"states":st.states,"transitions":st.transitions,"depth":st.depth,"fixpoint_reached":st.fixpoint,"alphabet":alpha.len(),"values":values}),
-        );
+        rep.count("explorer_runs", 1);
+        if rep.notes.len() < 12 {
+            rep.notes.insert(
+                format!("explorer_channels_{:?}_values_{:?}", chans, values),
+                json!({"states":st.states,"transitions":st.transitions,"depth":st.depth,"fixpoint_reached":st.fixpoint,"alphabet":alpha.len(),"values":values}),
+            );
+        }
     }
     let total = cfg.size(2_000, 12_000_000, 300_000_000);
     par(cfg, rep, |shard, nsh, rep| {
@@ -560,45 +575,53 @@ impl Sys for PnVisit {
 
 pub fn run_c10(cfg: &Cfg, rep: &mut Report) {
     rep.rule("crate encoder -> scanner: every message kind (7-bit, increment, decrement in either byte-order parameter; 14-bit LSB-first) for all numbers x boundary values, all values x boundary numbers, all channels, after (a) every reachable abstract scanner state found by a fixpoint explorer and (b) seeded junk histories over the full alphabet; running forms x y D D D.. and x y L M L M.. up to length 8 (thorough 32) and seeded longer; non-trivial = unit fed to a scanner that is not in its initial state; distinct by (prior state, message)");
-    // (a) explorer states x message sample
-    let mut sample: Vec<PnM> = Vec::new();
+    // (a) explorer states x message sample; abstract values rotate, and the sample contains the
+    // parameter numbers that can be formed from them (same-number re-selection included)
     let mut rng = Rng::derive(cfg.seed, 0xC10);
-    for c in [0u8, 3] {
+    let mut tot_states = 0u64;
+    for (run, pair) in crate::util::value_pairs(cfg, 0xC10, 3).iter().enumerate() {
+        let chan = if run == 0 { 3 } else { crate::util::rotating_channel(cfg, run) };
+        let (a, b) = (pair[0] as u16, pair[1] as u16);
+        let numbers = [a * 128 + b, b * 128 + a, a * 128 + a, b * 128 + b, 16383, 0];
+        let mut sample: Vec<PnM> = Vec::new();
         for (reg, kind, _) in KINDS.iter().copied() {
-            for &(n, v) in &[(0u16, 0u16), (129, 1), (16383, 127)] {
-                let is14 = kind == 1;
+            let is14 = kind == 1;
+            for (i, &n) in numbers.iter().enumerate() {
+                let v = [a, b, 127, 0, 1, 64][i];
                 sample.push(PnM {
-                    ch: c,
+                    ch: chan,
                     number: n,
-                    value: if is14 { v * 129 % 16384 } else { v },
+                    value: if is14 { (v * 128 + b) % 16384 } else { v },
                     registered: reg,
                     is14,
                     dt: [0u8, 0, 1, 2][kind as usize],
                 });
             }
         }
+        for _ in 0..cfg.size(2, 8, 32) {
+            sample.push(random_message(&mut rng));
+        }
+        let alpha = pn_alphabet(&[chan], &[pair[0], pair[1]], false, None);
+        let init = PnVisit {
+            mon: PnMon::new(),
+            sample: std::sync::Arc::new(sample),
+        };
+        let (st, _) = explore(cfg, init, &alpha, 1_000_000, rep, false);
+        rep.states += st.states;
+        rep.transitions += st.transitions;
+        rep.distinct_nontrivial += st.states;
+        tot_states += st.states;
+        if run < 4 {
+            rep.notes.insert(
+                format!("prior_state_explorer_ch{}_values_{:?}", chan, pair),
+                json!({"states":st.states,"transitions":st.transitions,"depth":st.depth,"fixpoint_reached":st.fixpoint}),
+            );
+        }
+        if !st.fixpoint {
+            rep.inconclusive("C10 prior-state explorer did not reach a fixpoint");
+        }
     }
-    for _ in 0..cfg.size(2, 16, 64) {
-        sample.push(random_message(&mut rng));
-    }
-    let values: Vec<u8> = vec![0, 1];
-    let chans: Vec<u8> = vec![3];
-    let alpha = pn_alphabet(&chans, &values, false, None);
-    let init = PnVisit {
-        mon: PnMon::new(),
-        sample: std::sync::Arc::new(sample),
-    };
-    let (st, _) = explore(cfg, init, &alpha, 1_000_000, rep, false);
-    rep.states += st.states;
-    rep.transitions += st.transitions;
-    rep.distinct_nontrivial += st.states;
-    rep.notes.insert(
-        "prior_state_explorer".into(),
-        json!({"states":st.states,"transitions":st.transitions,"depth":st.depth,"fixpoint_reached":st.fixpoint}),
-    );
-    if !st.fixpoint {
-        rep.inconclusive("C10 prior-state explorer did not reach a fixpoint");
-    }
+    rep.count("prior_state_explorer_states_total", tot_states);
 
     // (b) sweeps of message values after seeded junk, never-fresh scanner; running forms
     let bn: [u16; 7] = [0, 1, 127, 128, 8192, 16382, 16383];
